@@ -141,8 +141,10 @@ let () =
                  end;
                  arr := arr'
                end else if not inr && ins = 0 && del = 0 then begin
-                 (* an empty request beyond the end: nothing may change *)
+                 (* an empty request beyond the end: accepted by the implementation although the position is out of
+                    range (known finding F18; generated only by the kinds *-emptybeyond); nothing may change *)
                  count "noop_beyond_end";
+                 propfail id ("[empty-request-beyond-end] " ^ here ^ Printf.sprintf " an empty request (ins = del = 0) at position %d beyond the end (Len %d) is accepted without a panic" p (List.length !arr));
                  if lines <> !arr then propfail id (here ^ " an empty request changed the lines") ;
                  if cbs <> [] then propfail id (here ^ " an empty request reported deltas")
                end else begin
